@@ -236,7 +236,7 @@ theorem SpRel.rollback {a : State} {ta : TmpStore} {n : Nat} {s : State} (hr : S
       obtain ⟨t, hsp, hj, we, w⟩ := h.real_entry hm
       have hS' : Str [] { s with sps := invalidateAfter m s.sps } := h.str.congr rfl rfl rfl rfl
       have F := rollbackSavepoint_facts (s := { s with sps := invalidateAfter m s.sps }) hS' hsp
-        h.regOid h.changedReg h.addedReg h.creatingNil p' idx' cr'
+        h.regOid h.changedReg h.addedReg h.creatingNil (fun k hk => (w.crIdx k hk).1) p' idx' cr'
       generalize rollbackSavepoint { s with sps := invalidateAfter m s.sps } p' idx' cr' = R at *
       have hsps : R.sps = invalidateAfter m s.sps := F.sps
       have hcm : R.committed = s.committed := shared_committed F.shared
@@ -432,7 +432,7 @@ theorem rollback_exact_core {a : State} {ta : TmpStore} {n : Nat} (ha : Inv12 a)
     obtain ⟨t, hsp, hj, we, w⟩ := hs.real_entry hn
     have hS' : Str [] { s with sps := invalidateAfter n s.sps } := hs.str.congr rfl rfl rfl rfl
     have F := rollbackSavepoint_facts (s := { s with sps := invalidateAfter n s.sps }) hS' hsp
-      hs.regOid hs.changedReg hs.addedReg hs.creatingNil ta.position ta.index ta.creating
+      hs.regOid hs.changedReg hs.addedReg hs.creatingNil (fun k hk => (w.crIdx k hk).1) ta.position ta.index ta.creating
     generalize rollbackSavepoint { s with sps := invalidateAfter n s.sps } ta.position ta.index ta.creating
       = R at *
     cases hk : (R.objs i).oid with
@@ -466,7 +466,7 @@ theorem rollback_exact_core {a : State} {ta : TmpStore} {n : Nat} (ha : Inv12 a)
   obtain ⟨t, hsp, hj, we, w⟩ := hs.real_entry hn
   have hS' : Str [] { s with sps := invalidateAfter n s.sps } := hs.str.congr rfl rfl rfl rfl
   have F := rollbackSavepoint_facts (s := { s with sps := invalidateAfter n s.sps }) hS' hsp
-    hs.regOid hs.changedReg hs.addedReg hs.creatingNil ta.position ta.index ta.creating
+    hs.regOid hs.changedReg hs.addedReg hs.creatingNil (fun k hk => (w.crIdx k hk).1) ta.position ta.index ta.creating
   generalize rollbackSavepoint { s with sps := invalidateAfter n s.sps } ta.position ta.index ta.creating
     = R at *
   obtain ⟨t1, ht1, f1, f2, f3⟩ := hr.facts hn
@@ -767,7 +767,7 @@ theorem AbRel.rollback {a : State} {n : Nat} {s : State} (hr : AbRel a n s) (h :
       obtain ⟨t, hsp, hj, we, w⟩ := h.real_entry hm
       have hS' : Str [] { s with sps := invalidateAfter m s.sps } := h.str.congr rfl rfl rfl rfl
       have F := rollbackSavepoint_facts (s := { s with sps := invalidateAfter m s.sps }) hS' hsp
-        h.regOid h.changedReg h.addedReg h.creatingNil p' idx' cr'
+        h.regOid h.changedReg h.addedReg h.creatingNil (fun k hk => (w.crIdx k hk).1) p' idx' cr'
       generalize rollbackSavepoint { s with sps := invalidateAfter m s.sps } p' idx' cr' = R at *
       have hsps : R.sps = invalidateAfter m s.sps := F.sps
       refine hr0.frame ?_ (shared_committed F.shared) (OidStep.of_shrink F.clean.2)
